@@ -103,6 +103,21 @@ def check_singlelane(ck: Checker, rid: str):
             probs.append(f'put notifies {pn}, expected the condition get waits on (`{gc[0]}`)')
         if gn != [pc[0]]:
             probs.append(f'get notifies {gn}, expected the condition put waits on (`{pc[0]}`)')
+    # every insertion / removal is followed by exactly one notify before the lock is left, whatever the fill level was:
+    # a notify "only when the queue was full / empty before" is enough for one waiter, but the queue is also used with
+    # several producer threads (requester threads of the socket client): of k blocked producers only one would ever wake
+    for f_, opnames in ((put, ('append', 'appendleft')), (get, ('pop', 'popleft'))):
+        cfg = build_cfg(f_, ck.repo, None)
+        opn = [n for n in cfg.nodes if header_expr(n) is not None and any(method_of(c)[1] in opnames and dotted(method_of(c)[0] or ast.Name(id='')) == 'self._queue' for c in calls_in(header_expr(n)) if method_of(c)[0] is not None)]
+        if not opn:
+            continue
+        from mpsa.flow import count_minmax
+
+        wn = lambda n: sum(1 for c in calls_in(header_expr(n)) if method_of(c)[1] in ('notify', 'notify_all')) if header_expr(n) is not None else 0
+        res = count_minmax(cfg, opn[0].id, wn, stop=lambda nid: cfg.nodes[nid].kind == 'with_exit', back='skip')
+        for term, (lo, hi) in res.items():
+            if term[0] == 'node' and (lo, hi) != (1, 1) and term[1] != cfg.exit_raise:
+                probs.append(f'{f_.name}: after the deque operation the opposite condition is notified {lo}..{hi} times before the lock is left (must be exactly once, unconditionally): with several threads blocked on that condition a conditional notify leaves all but one of them parked for ever')
     ck.ob(rid, put, put.node.body[-1] if False else (put.node.lineno, 'SingleLane.put/get'), not probs, '; '.join(probs) if probs else f'put: {pops[0]} + notify {pn[0]} under `{pc[0]}`; get: {gops[0]} + notify {gn[0]} under `{gc[0]}`; both conditions over `{cond_mutex(pc[0])}`')
 
 
